@@ -141,6 +141,12 @@ class MembershipProtocol(Entity):
     def start(self) -> list[Event]:
         """Schedule the first probe tick."""
         random.shuffle(self._probe_order)
+        # Start every detector's clock now: a peer that never answers at all
+        # must accrue suspicion too (phi is 0 while no heartbeat was ever seen).
+        now_s = self.now.to_seconds()
+        for info in self._members.values():
+            if info.detector.last_heartbeat is None:
+                info.detector.heartbeat(now_s)
         return [
             Event(
                 time=self.now + self._probe_interval,
